@@ -452,7 +452,7 @@ def symbolic_accept_rule(cut, n_ops=1, index=0):
             raise Refuted("protocol obligation fails on a symbolic path: " + "; ".join(r["fail"]),
                           witness={"path": [str(c) for c in path], "failures": r["fail"]},
                           replay={"kind": "custom", "contract": "C15", "func": "replay_loop_grid", "args": {}},
-                          confirmed=_confirm_on_grid(cut))
+                          confirmed=_confirm_on_grid(cut)[0])
         tr = ExpTranslator()
         pc = [tr.cond(c) for c in path]
         LJ, LJp, h, u = (tr.rf(x.a.reshape(-1)[0]) for x in (r["LJ"], r["LJp"], r["hs"][index], r["u"]))
@@ -585,13 +585,14 @@ def _case_key(c):
     return [repr(float(x)) for x in c]
 
 
-def _confirm_on_grid(cut, want=None):
-    """search the concrete class split for a disagreement on the REAL whole MCMC.run (not the cut): (confirmed, witness)"""
+def _confirm_on_grid(cut=None, want=None):
+    """search the concrete class split for a disagreement of the REAL whole MCMC.run (not the cut) with the statement:
+    (confirmed, witness args for replay_accept)"""
     for c in finite_cases()[::3] + nonfinite_cases():
         ok, msg = replay_accept({"case": _case_key(c)})
         if not ok:
             return True, {"case": _case_key(c), "msg": msg}
-    return (False, None) if want else False
+    return False, None
 
 
 # ---------------------------------------------------------------------------------------------------
@@ -1203,14 +1204,17 @@ def _dual_symbolic(c, p):
     d._call_counter = c
     with _module_names(dm, math=sm), _module_names(am, math=sm):
         d.learn(p, c + 1, True)
-    return x_prev, nf.as_rf(integ.step_size), t
+    x_new = nf.as_rf(_SymMath._v(d._dual_avg.x))
+    if not nf.equal(nf.as_rf(_SymMath._v(integ.step_size)), nf.rexp(x_new)):
+        raise Undecided("DualAveragingStepSize.learn no longer sets step_size = exp(dual average iterate)")
+    return x_prev, x_new, t        # log step size before / after (exp is strictly increasing: compare the logarithms)
 
 
 def prove_dual_direction(side, counts=(1, 2, 10, 100)):
     """literal clause for the dual-averaging adaptor: from every reachable state (counter c >= 1, any running average),
     acceptance above (below) the target must not shrink (grow) the step size"""
     import z3
-    stats = {"z3_goals": 0, "backend": "z3 (EXP monotone)"}
+    stats = {"z3_goals": 0, "backend": "z3 on log step sizes (step = exp(.), exp strictly increasing; nf checks step_size == exp(iterate))"}
     for c in counts:
         def run():
             p = sym("p", (), nonneg=True)
@@ -1220,9 +1224,9 @@ def prove_dual_direction(side, counts=(1, 2, 10, 100)):
         for (x_prev, step1, t, p), path in Explorer(max_paths=8).run(run):
             tr = ExpTranslator()
             pc = [tr.cond(cc) for cc in path]
-            s0, s1 = tr.EXP(tr.rf(x_prev)), tr.rf(step1)
+            s0, s1 = tr.rf(x_prev), tr.rf(step1)
             pz, tz = tr.rf(p), tr.rf(t)
-            ax = tr.exp_axioms([tr.rf(x_prev)]) + [pz >= 0, pz <= 1, tz > 0, tz < 1]
+            ax = [pz >= 0, pz <= 1, tz > 0, tz < 1]
             hyp = pz > tz if side == "above" else pz < tz
             goal = s1 >= s0 if side == "above" else s1 <= s0
             ok, model = _z3_prove(tr, pc + ax + [hyp], goal)
@@ -1242,7 +1246,7 @@ def prove_dual_direction(side, counts=(1, 2, 10, 100)):
 def prove_dual_monotone(counts=(0, 1, 2, 10, 100)):
     """what dual averaging does guarantee: the new step size is strictly increasing in the acceptance probability of the
     current iteration (same state, p1 > p2  =>  step'(p1) > step'(p2))"""
-    stats = {"z3_goals": 0, "backend": "z3 (EXP monotone)", "statement": "p1 > p2 => step'(p1) > step'(p2), counters %s" % (counts,)}
+    stats = {"z3_goals": 0, "backend": "z3 on log step sizes (exp strictly increasing)", "statement": "p1 > p2 => step'(p1) > step'(p2), counters %s" % (counts,)}
     for c in counts:
         def run():
             p1, p2 = sym("p1", (), nonneg=True), sym("p2", (), nonneg=True)
@@ -1253,7 +1257,7 @@ def prove_dual_monotone(counts=(0, 1, 2, 10, 100)):
             tr = ExpTranslator()
             pc = [tr.cond(cc) for cc in path]
             z1, z2, q1, q2 = tr.rf(s1), tr.rf(s2), tr.rf(p1), tr.rf(p2)
-            ok, model = _z3_prove(tr, pc + tr.exp_axioms() + [q1 > q2], z1 > z2)
+            ok, model = _z3_prove(tr, pc + [q1 > q2], z1 > z2)
             stats["z3_goals"] += 1
             if ok is None:
                 raise Undecided("z3 unknown")
@@ -1261,3 +1265,1061 @@ def prove_dual_monotone(counts=(0, 1, 2, 10, 100)):
                 raise Refuted("dual averaging: a higher acceptance probability gives a smaller step size at counter %d" % c,
                               witness=_model_floats(tr, model, {"p1", "p2", "mu", "gamma", "sbar", "t"}), replay=None, confirmed=None)
     return stats
+
+
+# =====================================================================================================
+# C15.restore / C15.log: real operator classes, real Parameter / Distribution / JointDistributionModel / loggers
+# =====================================================================================================
+class _Listener:
+    def __init__(self):
+        self.n = 0
+
+    def handle_parameter_changed(self, variable, index, event):
+        self.n += 1
+
+    def handle_model_changed(self, model, obj, index):
+        self.n += 1
+
+
+def _snap(t):
+    return t.detach().clone()
+
+
+def _identical(a, b):
+    """bit-identical tensors incl. dtype and shape (nan == nan)"""
+    if a.shape != b.shape or a.dtype != b.dtype:
+        return False
+    if a.dtype.is_floating_point:
+        return bool(((a == b) | (torch.isnan(a) & torch.isnan(b))).all())
+    return bool((a == b).all())
+
+
+ADVERSARIES = {
+    "inplace_mul": lambda p, i: p.tensor.mul_(2),
+    "inplace_index_then_setter": lambda p, i: (lambda t: (t.__setitem__(Ellipsis, 7), setattr(p, "tensor", t)))(p.tensor),
+    "rebind": lambda p, i: setattr(p, "tensor", p.tensor + 1),
+    "reshape_retype": lambda p, i: setattr(p, "tensor", torch.zeros(5, dtype=torch.float32)),
+    "zero_": lambda p, i: p.tensor.zero_(),
+}
+
+
+def _adversarial_operator(base, adversary, save_mode="real"):
+    """concrete subclass of the REAL MCMCOperator (only the abstract hooks are filled in); `_step` is the adversary"""
+    class Adv(base):
+        @property
+        def tuning_parameter(self):
+            return 0.0
+
+        @base.adaptable_parameter.getter
+        def adaptable_parameter(self):
+            return 0.0
+
+        def set_adaptable_parameter(self, value):
+            pass
+
+        def _step(self):
+            for i, p in enumerate(self.parameters):
+                adversary(p, i)
+            return torch.tensor(0.0)
+
+        def _state_dict(self):
+            return {}
+
+        def _load_state_dict(self, state_dict):
+            pass
+
+        @classmethod
+        def from_json(cls, data, dic):
+            raise NotImplementedError
+    if save_mode == "reference":        # must-fail twin: saves references instead of clones
+        def step(self):
+            self.saved_tensors = [parameter.tensor for parameter in self.parameters]
+            return self._step()
+        Adv.step = step
+    if save_mode == "no_setter":        # must-fail twin: restores behind the listeners' back
+        def reject(self):
+            for parameter, saved_tensor in zip(self.parameters, self.saved_tensors):
+                parameter._tensor = saved_tensor
+            self._reject += 1
+        Adv.reject = reject
+    return Adv
+
+
+def _fresh_tensors(n):
+    pool = [torch.tensor([0.3, 1.2, 2.5], dtype=torch.float64), torch.tensor([[1.5, -2.0], [0.25, 4.0]], dtype=torch.float32),
+            torch.tensor([3, 1, 4, 1], dtype=torch.int64), torch.tensor(2.75, dtype=torch.float64), torch.zeros(0, dtype=torch.float64)]
+    return [pool[i % len(pool)].clone() for i in range(n)]
+
+
+def restore_base(save_mode="real", lengths=(0, 1, 2, 3, 5)):
+    """real MCMCOperator.step / reject / accept around an adversarial `_step`; raises Refuted on the first failure"""
+    from torchtree.core.parameter import Parameter
+    om = _om()
+    cases = 0
+    for n in lengths:
+        for aname, adv in ADVERSARIES.items():
+            for decision in ("reject", "accept"):
+                params = [Parameter("p%d" % i, t) for i, t in enumerate(_fresh_tensors(n))]
+                pre = [_snap(p.tensor) for p in params]
+                ls = [_Listener() for _ in params]
+                for p, l in zip(params, ls):
+                    p.add_parameter_listener(l)
+                op = _adversarial_operator(om.MCMCOperator, adv, save_mode)("op", params, 1.0, 0.24)
+                try:
+                    op.step()
+                except RuntimeError:
+                    continue      # adversary not applicable to this dtype (e.g. mul_ on an empty int tensor): not a case
+                post = [_snap(p.tensor) for p in params]
+                seen = [l.n for l in ls]
+                getattr(op, decision)()
+                cases += 1
+                for i, p in enumerate(params):
+                    want = pre[i] if decision == "reject" else post[i]
+                    if not _identical(p.tensor, want):
+                        raise Refuted("after step(); %s() parameter %d is %s, %s was %s (adversarial _step '%s', %d parameters, save mode %s)"
+                                      % (decision, i, p.tensor.tolist(), "its pre-state" if decision == "reject" else "the proposed state", want.tolist(), aname, n, save_mode),
+                                      witness={"n": n, "adversary": aname, "decision": decision, "parameter": i},
+                                      replay={"kind": "custom", "contract": "C15", "func": "replay_restore_base", "args": {"n": n, "adversary": aname, "decision": decision}},
+                                      confirmed=(save_mode == "real"))
+                    if decision == "reject" and ls[i].n <= seen[i]:
+                        raise Refuted("reject() restored parameter %d without notifying its listeners (cached densities stay stale)" % i,
+                                      witness={"n": n, "adversary": aname}, replay={"kind": "custom", "contract": "C15", "func": "replay_restore_base",
+                                                                                  "args": {"n": n, "adversary": aname, "decision": decision}}, confirmed=(save_mode == "real"))
+                if (op._accept, op._reject) != ((0, 1) if decision == "reject" else (1, 0)):
+                    raise Refuted("accept/reject counters are %d/%d after %s()" % (op._accept, op._reject, decision), witness={}, replay=None, confirmed=None)
+    return {"backend": "heap (real step/reject/accept, adversarial _step on real tensors)", "cases": cases,
+            "statement": "for every list length %s, dtype/shape mix and adversarial _step (%s): step();reject() restores every parameter bit-identically "
+                         "through the setter (listeners notified); step();accept() keeps the proposal" % (list(lengths), ", ".join(ADVERSARIES))}
+
+
+def replay_restore_base(args):
+    try:
+        restore_base("real", lengths=(args["n"],))
+    except Refuted as e:
+        return False, e.detail
+    return True, "restored bit-identically"
+
+
+def _gamma_lp(x, a, b):
+    return torch.distributions.Gamma(torch.tensor(a), torch.tensor(b)).log_prob(x).sum()
+
+
+def real_world(kind, adapt=True):
+    """real operator + the real models it is used with; returns dict(op, params (watched), joint, oracle())"""
+    import importlib
+    from torchtree.core.parameter import Parameter, TransformedParameter
+    from torchtree.distributions.distributions import Distribution
+    from torchtree.distributions.joint_distribution import JointDistributionModel
+    om = _om()
+    kw = {} if adapt else {"disable_adaptation": True}
+    if kind in ("ScalerOperator", "SlidingWindowOperator", "HMCOperator"):
+        x = Parameter("x", torch.tensor([0.7, 1.9, 0.2]))
+        y = Parameter("y", torch.tensor([0.4, 2.2]))
+        if kind == "ScalerOperator":
+            d1 = Distribution("px", torch.distributions.Gamma, x, {"concentration": Parameter("a", torch.tensor([2.0])), "rate": Parameter("b", torch.tensor([1.5]))})
+            d2 = Distribution("py", torch.distributions.Gamma, y, {"concentration": Parameter("a2", torch.tensor([3.0])), "rate": Parameter("b2", torch.tensor([0.5]))})
+
+            def oracle():
+                return _gamma_lp(_snap(x.tensor), 2.0, 1.5) + _gamma_lp(_snap(y.tensor), 3.0, 0.5)
+        else:
+            d1 = Distribution("px", torch.distributions.Normal, x, {"loc": Parameter("m", torch.tensor([0.5])), "scale": Parameter("s", torch.tensor([1.5]))})
+            d2 = Distribution("py", torch.distributions.Normal, y, {"loc": Parameter("m2", torch.tensor([-0.5])), "scale": Parameter("s2", torch.tensor([0.7]))})
+
+            def oracle():
+                return (torch.distributions.Normal(torch.tensor(0.5), torch.tensor(1.5)).log_prob(_snap(x.tensor)).sum()
+                        + torch.distributions.Normal(torch.tensor(-0.5), torch.tensor(0.7)).log_prob(_snap(y.tensor)).sum())
+        joint = JointDistributionModel("joint", [d1, d2])
+        if kind == "ScalerOperator":
+            op = om.ScalerOperator("op", [x, y], 1.0, 0.24, 0.5, **kw)
+        elif kind == "SlidingWindowOperator":
+            op = om.SlidingWindowOperator("op", [x, y], 1.0, 0.24, 0.8, **kw)
+        else:
+            hm = importlib.import_module("torchtree.inference.hmc.operator")
+            from torchtree.inference.hmc.integrator import LeapfrogIntegrator
+            op = hm.HMCOperator("op", joint, [x, y], LeapfrogIntegrator("lf", 4, 0.15), Parameter("mass", torch.ones(5)), 1.0, 0.8, [], **kw)
+        return {"op": op, "params": [x, y], "joint": joint, "oracle": oracle, "models": [d1, d2, joint]}
+    if kind == "DirichletOperator":
+        f = Parameter("f", torch.tensor([0.2, 0.3, 0.5]))
+        d1 = Distribution("pf", torch.distributions.Dirichlet, f, {"concentration": Parameter("c", torch.tensor([2.0, 3.0, 1.5]))})
+        joint = JointDistributionModel("joint", [d1])
+        op = om.DirichletOperator("op", [f], 1.0, 0.24, 60.0, **kw)
+        return {"op": op, "params": [f], "joint": joint, "models": [d1, joint],
+                "oracle": lambda: torch.distributions.Dirichlet(torch.tensor([2.0, 3.0, 1.5])).log_prob(_snap(f.tensor))}
+    if kind == "GMRFPiecewiseCoalescentBlockUpdatingOperator":
+        gmod = importlib.import_module("torchtree.inference.mcmc.gmrf_block_updating")
+        from torchtree.distributions.gmrf import GMRF
+        from torchtree.evolution.coalescent import FakeTreeModel, PiecewiseConstantCoalescentGridModel
+        field = Parameter("field", torch.tensor([1.0, 0.5, 0.2, 0.1]))
+        prec = Parameter("prec", torch.tensor([2.0]))
+        gm = GMRF("gmrf", field, prec)
+        theta = TransformedParameter("theta", field, torch.distributions.ExpTransform())
+        grid = Parameter(None, torch.tensor([0.4, 0.9, 1.5]))
+        heights = torch.tensor([0., 0., 0.1, 0.2, 0.0, 0.3, 0.7, 1.1, 2.0])
+        coal = PiecewiseConstantCoalescentGridModel("coal", theta, grid, FakeTreeModel(Parameter(None, heights)))
+        gprior = Distribution("pprec", torch.distributions.Gamma, prec, {"concentration": Parameter("ga", torch.tensor([1.0])), "rate": Parameter("gb", torch.tensor([1.0]))})
+        joint = JointDistributionModel("joint", [coal, gm, gprior])
+        op = gmod.GMRFPiecewiseCoalescentBlockUpdatingOperator("op", coal, gm, 1.0, 0.24, 2.0, **kw)
+
+        def oracle():
+            # from scratch: brand-new model objects over copies of the current values
+            f2, p2 = Parameter("field", _snap(field.tensor)), Parameter("prec", _snap(prec.tensor))
+            c2 = PiecewiseConstantCoalescentGridModel("coal", TransformedParameter("theta", f2, torch.distributions.ExpTransform()),
+                                                      Parameter(None, grid.tensor.clone()), FakeTreeModel(Parameter(None, heights.clone())))
+            return c2().sum() + GMRF("gmrf", f2, p2)().sum() + _gamma_lp(_snap(prec.tensor), 1.0, 1.0)
+        return {"op": op, "params": [field, prec], "joint": joint, "oracle": oracle, "models": [coal, gm, gprior, joint]}
+    raise KeyError(kind)
+
+
+REAL_KINDS = ["ScalerOperator", "SlidingWindowOperator", "DirichletOperator", "GMRFPiecewiseCoalescentBlockUpdatingOperator", "HMCOperator"]
+
+
+def _close(a, b, tol=1e-10):
+    a, b = float(a), float(b)
+    return a == b or abs(a - b) <= tol * max(1.0, abs(a), abs(b))
+
+
+def _step_frame_scan(cls):
+    """the real `_step` (and the helpers it calls on self) never writes `saved_tensors` - the lift from the adversarial base
+    obligation to this class needs only that"""
+    import inspect
+    import textwrap
+    bad = []
+    for name, fn in inspect.getmembers(cls, inspect.isfunction):
+        if name in ("step", "reject", "accept"):
+            continue
+        try:
+            tree = ast.parse(textwrap.dedent(inspect.getsource(fn)))
+        except (OSError, TypeError):
+            continue
+        for node in ast.walk(tree):
+            if isinstance(node, ast.Attribute) and node.attr == "saved_tensors" and isinstance(node.ctx, (ast.Store, ast.Del)):
+                bad.append("%s.%s assigns saved_tensors" % (cls.__name__, name))
+            if isinstance(node, ast.Call) and isinstance(node.func, ast.Attribute) and isinstance(node.func.value, ast.Attribute) \
+                    and node.func.value.attr == "saved_tensors":
+                bad.append("%s.%s calls saved_tensors.%s" % (cls.__name__, name, node.func.attr))
+    return bad
+
+
+def restore_real(kind, reps, seed, check_log=True):
+    """real operator: step(); reject() restores bit-identically, notifies listeners, leaves the joint's cache coherent
+    (a logger evaluating the joint afterwards logs the density of the restored state)"""
+    from torchtree.core.logger import ContainerLogger
+    w = real_world(kind)
+    op, params, joint, oracle = w["op"], w["params"], w["joint"], w["oracle"]
+    bad_frame = _step_frame_scan(type(op))
+    if bad_frame:
+        raise Undecided("frame of _step: " + "; ".join(bad_frame))
+    if type(op).step is not _om().MCMCOperator.step or type(op).reject is not _om().MCMCOperator.reject:
+        raise Undecided("%s overrides step/reject: the base-class obligation does not lift" % kind)
+    ls = [_Listener() for _ in params]
+    for p, l in zip(params, ls):
+        p.add_parameter_listener(l)
+    rows = []
+    logger = ContainerLogger([joint] + params, rows, 1)
+    moved = 0
+    for r in range(reps):
+        torch.manual_seed(seed * 1000 + r)
+        pre = [_snap(p.tensor) for p in params]
+        lp_pre = joint().clone()
+        if not _close(lp_pre, oracle()):
+            raise Refuted("%s: joint() = %r before the proposal, from-scratch evaluation gives %r" % (kind, float(lp_pre), float(oracle())),
+                          witness={"kind": kind, "rep": r}, replay=_rr(kind, r, seed), confirmed=True)
+        seen = [l.n for l in ls]
+        with contextlib.redirect_stdout(io.StringIO()):
+            h = op.step()
+        lp_prop, fresh = joint(), oracle()
+        if any(not _identical(p.tensor, q) for p, q in zip(params, pre)):
+            moved += 1
+        if not (_close(lp_prop, fresh) or (bool(torch.isnan(lp_prop)) and bool(torch.isnan(fresh)))):
+            raise Refuted("%s: after step() joint() returns %r but the target evaluated from scratch at the proposed state is %r (stale cache)"
+                          % (kind, float(lp_prop), float(fresh)), witness={"kind": kind, "rep": r}, replay=_rr(kind, r, seed), confirmed=True)
+        seen_step = [l.n for l in ls]
+        op.reject()
+        for i, p in enumerate(params):
+            if ls[i].n <= seen_step[i]:
+                raise Refuted("%s: reject() did not notify the listeners of parameter '%s'" % (kind, p.id), witness={"kind": kind, "rep": r},
+                              replay=_rr(kind, r, seed), confirmed=True)
+            if not _identical(p.tensor, pre[i]):
+                raise Refuted("%s: after step(); reject() parameter '%s' is %s, its pre-state was %s" % (kind, p.id, p.tensor.tolist(), pre[i].tolist()),
+                              witness={"kind": kind, "rep": r, "parameter": p.id}, replay=_rr(kind, r, seed), confirmed=True)
+            if p.tensor.requires_grad:
+                raise Refuted("%s: parameter '%s' requires grad after a rejected move" % (kind, p.id), witness={"kind": kind}, replay=_rr(kind, r, seed), confirmed=True)
+        if not joint.lp_needs_update and not _close(joint(), lp_pre):
+            raise Refuted("%s: joint keeps a stale cached value after reject()" % kind, witness={"kind": kind, "rep": r}, replay=_rr(kind, r, seed), confirmed=True)
+        if check_log:
+            logger.log(sample=r + 1)
+            row = rows[-1]
+            flat = [v for p in params for v in p.tensor.tolist()]
+            if not _close(row[0], lp_pre, 1e-12) or not _close(row[0], oracle()) or row[1:] != flat:
+                raise Refuted("%s: the row a real ContainerLogger writes after a rejected move is %r; restored parameters %r have density %r"
+                              % (kind, row, flat, float(oracle())), witness={"kind": kind, "rep": r, "row": row}, replay=_rr(kind, r, seed), confirmed=True)
+    if moved == 0:
+        raise Undecided("vacuous: %s never moved a parameter in %d proposals" % (kind, reps))
+    return {"backend": "heap (real classes, real tensors)", "cases": reps, "proposals_that_moved": moved,
+            "statement": "%s: step(); reject() restores every parameter bit-identically through the setter; joint() after step equals the from-scratch "
+                         "target; after reject the joint and a real ContainerLogger give the density of the restored state" % kind}
+
+
+def _rr(kind, r, seed):
+    return {"kind": "custom", "contract": "C15", "func": "replay_restore_real", "args": {"kind": kind, "reps": r + 1, "seed": seed}}
+
+
+def replay_restore_real(args):
+    try:
+        restore_real(args["kind"], args["reps"], args["seed"])
+    except Refuted as e:
+        return False, e.detail
+    return True, "restored, cache coherent"
+
+
+def hmc_failure_path():
+    """HMCOperator._step: when the potential is nan on every trial the operator restores the saved tensors itself and returns
+    +inf; the state must be the pre-state, requires_grad False, and the real loop must reject it"""
+    import importlib
+    from torchtree.core.model import CallableModel
+    from torchtree.core.parameter import Parameter
+    from torchtree.inference.hmc.integrator import LeapfrogIntegrator
+    hm = importlib.import_module("torchtree.inference.hmc.operator")
+    x = Parameter("x", torch.tensor([0.7, 1.9]))
+
+    class Cliff(CallableModel):
+        def __init__(self):
+            super().__init__("cliff")
+            self.x = x
+            self.calls = 0
+
+        def _call(self, *a, **k):
+            self.calls += 1
+            v = -(self.x.tensor ** 2).sum()
+            return v if self.calls <= 1 else v * float("nan")
+
+        def _sample_shape(self):
+            return torch.Size([])
+
+        def handle_model_changed(self, model, obj, index):
+            pass
+
+        @classmethod
+        def from_json(cls, data, dic):
+            raise NotImplementedError
+    m = Cliff()
+    op = hm.HMCOperator("op", m, [x], LeapfrogIntegrator("lf", 2, 0.1), Parameter("mass", torch.ones(2)), 1.0, 0.8, [])
+    pre = _snap(x.tensor)
+    torch.manual_seed(3)
+    with contextlib.redirect_stdout(io.StringIO()):
+        h = op.step()
+    if not (torch.isinf(h) and h > 0):
+        raise Undecided("HMC failure path not reached (returned %r)" % float(h))
+    if not _identical(x.tensor, pre) or x.tensor.requires_grad:
+        raise Refuted("HMCOperator returned +inf (all trials failed) but left the parameter at %s (pre-state %s), requires_grad=%s"
+                      % (x.tensor.tolist(), pre.tolist(), x.tensor.requires_grad), witness={}, replay=None, confirmed=True)
+    op.reject()
+    if not _identical(x.tensor, pre):
+        raise Refuted("HMCOperator: reject() after the +inf path does not restore", witness={}, replay=None, confirmed=True)
+    return {"backend": "heap (real HMCOperator, potential nan on every trial)", "cases": 1,
+            "statement": "after 10 failed trials _step returns +inf with the saved tensors restored; reject() keeps the pre-state"}
+
+
+# ---------------------------------------------------------------------------------------------------
+# whole real runs (B): the uncut MCMC.run with real operators, instrumented from outside
+# ---------------------------------------------------------------------------------------------------
+def whole_run(kinds, adapt, iters, seed, every=0):
+    """real MCMC.run over a mixture of real operators on real models; every iteration is re-derived from the statement.
+    Instrumentation is external: instance-level wrappers around step/accept/reject/tune, a wrapper callable around the
+    real joint, torch.rand of the module namespace recorded (not replaced), a recording logger + a real ContainerLogger."""
+    from torchtree.core.logger import ContainerLogger
+    from torchtree.distributions.joint_distribution import JointDistributionModel
+    mm = _mm()
+    torch.manual_seed(seed)
+    worlds = [real_world(k, adapt) for k in kinds]
+    for i, w in enumerate(worlds):
+        w["op"]._id = "op%d.%s" % (i, kinds[i])
+    total = JointDistributionModel("total", [w["joint"] for w in worlds])
+    params = [p for w in worlds for p in w["params"]]
+
+    def oracle():
+        return sum(w["oracle"]() for w in worlds)
+    ev = []
+    for k, w in enumerate(worlds):
+        op = w["op"]
+
+        def mk(op=op, k=k):
+            real_step, real_accept, real_reject, real_tune = op.step, op.accept, op.reject, op.tune
+
+            def step():
+                pre = [_snap(p.tensor) for p in params]
+                with contextlib.redirect_stdout(io.StringIO()):
+                    h = real_step()
+                ev.append(["step", k, pre, h.detach().clone(), [_snap(p.tensor) for p in params]])
+                return h
+
+            def accept():
+                real_accept()
+                ev.append(["accept", k])
+
+            def reject():
+                real_reject()
+                ev.append(["reject", k, [_snap(p.tensor) for p in params]])
+
+            def tune(acceptance_prob, sample, accepted):
+                b = op.tuning_parameter
+                real_tune(acceptance_prob, sample=sample, accepted=accepted)
+                ev.append(["tune", k, float(acceptance_prob), sample, accepted, float(b), float(op.tuning_parameter)])
+            op.step, op.accept, op.reject, op.tune = step, accept, reject, tune
+        mk()
+
+    def joint():
+        v = total()
+        ev.append(["joint", v.detach().clone(), oracle()])
+        return v
+
+    class Rec:
+        def initialize(self):
+            pass
+
+        def log(self, sample):
+            ev.append(["log", sample, [_snap(p.tensor) for p in params], total().detach().clone(), oracle()])
+
+        def close(self):
+            pass
+    rows = []
+    clog = ContainerLogger([total] + params, rows, 1)
+    real_rand = torch.rand
+
+    def rand(*a, **k):
+        u = real_rand(*a, **k)
+        ev.append(["rand", u.clone()])
+        return u
+    mcmc = mm.MCMC("mcmc", joint, [w["op"] for w in worlds], iters, loggers=[Rec(), clog], checkpoint=None, every=every)
+    with _module_names(mm, torch=_NS(torch, rand=rand)), contextlib.redirect_stdout(io.StringIO()):
+        mcmc.run()
+    # ---- re-derive every iteration
+    def fail(msg, it):
+        raise Refuted("whole run (%s, adaptation %s, seed %d), iteration %d: %s" % ("+".join(kinds), "on" if adapt else "off", seed, it, msg),
+                      witness={"kinds": kinds, "adapt": adapt, "seed": seed, "iteration": it},
+                      replay={"kind": "custom", "contract": "C15", "func": "replay_whole_run", "args": {"kinds": kinds, "adapt": adapt, "iters": it, "seed": seed}},
+                      confirmed=True)
+    i = 0
+    # prefix: logger at sample 0, then the joint at the initial state
+    if ev[i][0] != "log" or ev[i][1] != 0:
+        fail("first event is %r" % ev[i][0], 0)
+    i += 1
+    if ev[i][0] != "joint" or not _close(ev[i][1], ev[i][2]):
+        fail("initial log_joint %r is not the target at the initial state %r" % (ev[i][1:3]), 0)
+    LJ = float(ev[i][1])
+    i += 1
+    n_acc = n_rej = n_nonfinite = 0
+    used = set()
+    for it in range(1, iters + 1):
+        e = ev[i]
+        if e[0] != "step":
+            fail("expected step, got %r" % e[0], it)
+        k, pre, h, post = e[1], e[2], float(e[3]), e[4]
+        used.add(k)
+        i += 1
+        LJp, u = None, None
+        if ev[i][0] == "joint":
+            if not (_close(ev[i][1], ev[i][2]) or (ev[i][1] != ev[i][1] and ev[i][2] != ev[i][2])):
+                fail("density used for the proposal %r differs from the target evaluated from scratch %r" % (float(ev[i][1]), float(ev[i][2])), it)
+            LJp = float(ev[i][1])
+            i += 1
+        if ev[i][0] == "rand":
+            u = float(ev[i][1])
+            i += 1
+        dec = ev[i]
+        if dec[0] not in ("accept", "reject") or dec[1] != k:
+            fail("expected the decision of operator %d, got %r" % (k, dec[:2]), it)
+        i += 1
+        accepted = dec[0] == "accept"
+        if LJp is None:
+            if accepted or math.isfinite(h):
+                fail("no density evaluated for the proposal although h=%r, accepted=%s" % (h, accepted), it)
+            want, pw = False, 0.0
+            n_nonfinite += 1
+        else:
+            if u is None:
+                if math.isfinite(LJp) and math.isfinite(h):
+                    fail("no uniform draw for a finite proposal", it)
+                want, pw = spec_decision(LJ, LJp, h, 0.5)
+                n_nonfinite += 1
+            else:
+                want, pw = spec_decision(LJ, LJp, h, u)
+        if accepted is not want:
+            fail("move %s with LJ=%r LJ'=%r h=%r u=%r; the statement requires %s" % ("accepted" if accepted else "rejected", LJ, LJp, h, u, "accept" if want else "reject"), it)
+        if accepted:
+            LJ = LJp
+            n_acc += 1
+            cur = post
+        else:
+            n_rej += 1
+            cur = pre
+            for a, b in zip(dec[2], pre):
+                if not _identical(a, b):
+                    fail("rejected move did not restore a parameter bit-identically: %s vs %s" % (a.tolist(), b.tolist()), it)
+        e = ev[i]
+        if e[0] != "log" or e[1] != it:
+            fail("expected the logger at sample %d after the decision, got %r" % (it, e[:2]), it)
+        if any(not _identical(a, b) for a, b in zip(e[2], cur)):
+            fail("logged parameters are not the post-decision state", it)
+        if not _close(e[3], e[4]) or not _close(e[3], LJ):
+            fail("logged density %r; target at the logged parameters %r; chain's log_joint %r" % (float(e[3]), float(e[4]), LJ), it)
+        i += 1
+        e = ev[i]
+        if e[0] != "tune" or e[1] != k or e[3] != it or e[4] is not accepted or not _close(e[2], pw, 1e-12):
+            fail("tune event %r, expected acceptance probability %r" % (e, pw), it)
+        if not adapt and e[5] != e[6]:
+            fail("adaptation is off but the tuning parameter changed %r -> %r" % (e[5], e[6]), it)
+        i += 1
+        row = rows[it]
+        flat = [v for p in cur for v in p.tolist()]
+        if not _close(row[0], LJ) or row[1:] != flat:
+            fail("real ContainerLogger row %r is not (target, parameters) of the post-decision state" % (row,), it)
+    if i != len(ev):
+        fail("%d unexplained trailing events" % (len(ev) - i), iters)
+    if n_acc == 0 or n_rej == 0 or len(used) != len(kinds):
+        raise Undecided("vacuous whole run: %d accepted, %d rejected, operators used %s" % (n_acc, n_rej, sorted(used)))
+    return {"iterations": iters, "accepted": n_acc, "rejected": n_rej, "nonfinite": n_nonfinite}
+
+
+def replay_whole_run(args):
+    try:
+        whole_run(args["kinds"], args["adapt"], args["iters"], args["seed"])
+    except Refuted as e:
+        return False, e.detail
+    return True, "every iteration agrees with the statement"
+
+
+# ---------------------------------------------------------------------------------------------------
+# GMRF block operator: the +inf return paths through the real loop
+# ---------------------------------------------------------------------------------------------------
+def gmrf_inf_path(fail_at):
+    """`torch.linalg.cholesky` of the operator's module raises the LinAlgError on its `fail_at`-th call: `_step` returns +inf
+    after having changed the precision (and, for the 2nd call, the field); one iteration of the whole real MCMC.run must
+    reject, restore both parameters bit-identically and log the restored state with its own density"""
+    import importlib
+    from torchtree.core.logger import ContainerLogger
+    gmod = importlib.import_module("torchtree.inference.mcmc.gmrf_block_updating")
+    mm = _mm()
+    w = real_world("GMRFPiecewiseCoalescentBlockUpdatingOperator")
+    op, params, joint, oracle = w["op"], w["params"], w["joint"], w["oracle"]
+    calls = [0]
+    real_chol = torch.linalg.cholesky
+
+    def chol(*a, **k):
+        calls[0] += 1
+        if calls[0] == fail_at:
+            raise torch._C._LinAlgError("linalg.cholesky: contract stub: not positive-definite")
+        return real_chol(*a, **k)
+    hs = []
+    real_step = op.step
+
+    def step():
+        h = real_step()
+        hs.append((float(h), [_snap(p.tensor) for p in params]))
+        return h
+    op.step = step
+    pre = [_snap(p.tensor) for p in params]
+    lp0 = float(oracle())
+    rows = []
+    torch.manual_seed(11)
+    mcmc = mm.MCMC("mcmc", joint, [op], 1, loggers=[ContainerLogger([joint] + params, rows, 1)], checkpoint=None, every=0)
+    with _module_names(gmod, torch=_NS(torch, linalg=_NS(torch.linalg, cholesky=chol))), contextlib.redirect_stdout(io.StringIO()):
+        mcmc.run()
+    if calls[0] < fail_at:
+        raise Undecided("cholesky call #%d not reached" % fail_at)
+    h, mid = hs[0]
+    if not (h == INF):
+        raise Refuted("GMRF block operator returned %r on a Cholesky failure (expected the +inf sentinel)" % h, witness={"fail_at": fail_at},
+                      replay={"kind": "custom", "contract": "C15", "func": "replay_gmrf_inf", "args": {"fail_at": fail_at}}, confirmed=True)
+    changed = [not _identical(a, b) for a, b in zip(mid, pre)]
+    bad = []
+    if op._reject != 1 or op._accept != 0:
+        bad.append("the half-made proposal was not rejected (accept=%d reject=%d)" % (op._accept, op._reject))
+    for p, q in zip(params, pre):
+        if not _identical(p.tensor, q):
+            bad.append("parameter %s is %s, pre-state %s" % (p.id, p.tensor.tolist(), q.tolist()))
+    row = rows[-1]
+    if not _close(row[0], lp0) or not _close(row[0], oracle()):
+        bad.append("logged density %r, target at the restored state %r" % (row[0], lp0))
+    if bad:
+        raise Refuted("GMRF Cholesky failure #%d: %s" % (fail_at, "; ".join(bad)), witness={"fail_at": fail_at},
+                      replay={"kind": "custom", "contract": "C15", "func": "replay_gmrf_inf", "args": {"fail_at": fail_at}}, confirmed=True)
+    if not any(changed):
+        raise Undecided("vacuous: nothing had been changed when the failure occurred")
+    return {"backend": "heap (real operator + whole real MCMC.run, cholesky stub raising)", "cases": 1,
+            "statement": "Cholesky failure #%d: _step returns +inf with %s already changed; the loop rejects, both parameters are restored "
+                         "bit-identically, the logged row is (target, parameters) of the restored state" % (fail_at, [p.id for p, c in zip(params, changed) if c])}
+
+
+def replay_gmrf_inf(args):
+    try:
+        gmrf_inf_path(args["fail_at"])
+    except Refuted as e:
+        return False, e.detail
+    return True, "rejected and restored"
+
+
+# =====================================================================================================
+# obligations
+# =====================================================================================================
+def _cut(func=None):
+    mm = _mm()
+    c = loopcut15.cut_only_while(func or mm.MCMC.run)
+    return c
+
+
+def _cut_info(c, func=None):
+    mm = _mm()
+    return {"loop_header_dropped": c.header, "rewrites": c.rewrites, "body_statements": c.n_body,
+            "source_sha256_MCMC.run": loopcut15.sha(func or mm.MCMC.run)}
+
+
+def ob_loop_cut():
+    """the cut itself: located, header side-effect free, `break` path leaves everything untouched"""
+    c = _cut()
+    test = ast.parse(c.iter, mode="eval")
+    for n in ast.walk(test):
+        if isinstance(n, (ast.Call, ast.NamedExpr, ast.Await, ast.Yield)):
+            raise Undecided("the dropped loop header `%s` has side effects" % c.header)
+    names = {n.attr for n in ast.walk(test) if isinstance(n, ast.Attribute)}
+    if not names <= {"_epoch", "iterations"}:
+        raise Undecided("the dropped loop header reads %s" % sorted(names))
+    if len(c.rewrites) != 1 or "break" not in c.rewrites[0]:
+        raise Undecided("expected exactly the `if handler.stop: break` rewrite, got %s" % c.rewrites)
+    # stop requested: tagged return, nothing touched
+    mm, w, ops, mcmc, saves = _build(c, _t(-1.0), _t(-2.0), [_t(0.0)], torch.tensor([0.5]), 0)
+    st = {"self": mcmc, "accept": 3, "handler": types.SimpleNamespace(stop=True), "log_joint": w.pi["S0"]}
+    with _module_names(mm, torch=_loop_torch(torch.tensor([0.5]), 0, [], [])):
+        tagv, loc = c.body(st)
+    if tagv != "break" or w.events or mcmc._epoch != 7 or loc["log_joint"] is not w.pi["S0"]:
+        raise Refuted("a requested stop does not end the loop cleanly: tag=%r events=%r" % (tagv, w.events), witness={}, replay=None, confirmed=None)
+    out = _cut_info(c)
+    out.update(backend="ast + native execution", cases=1, statement="while-loop of MCMC.run located; header reads only _epoch/iterations; "
+               "`break` -> tagged return with no collaborator call")
+    return out
+
+
+def ob_loop_symbolic(n_ops, index):
+    def fn():
+        c = _cut()
+        st = symbolic_accept_rule(c, n_ops, index)
+        st.update(_cut_info(c))
+        st.update(backend="symbolic execution of the verbatim body (vt.symtorch + vt.cond.Explorer) + z3 QF_UFNRA, EXP uninterpreted with instantiated "
+                          "axioms: EXP>0, EXP(0)=1, strictly monotone on all occurring arguments, EXP(LJ'-LJ+h)*EXP(LJ) = EXP(LJ')*EXP(h)",
+                  statement="for all real LJ, LJ', h and u in [0,1): accepted <=> u < min(1, exp(LJ'-LJ+h)); tune receives min(1, exp(LJ'-LJ+h)); "
+                            "all protocol postconditions hold on every path")
+        return st
+    return fn
+
+
+def _raise_case(c, f, what):
+    ok, msg = replay_accept({"case": _case_key(c)})
+    raise Refuted("%s: LJ=%r LJ'=%r h=%r u=%r: %s" % (what, c[0], c[1], c[2], c[3], "; ".join(f)),
+                  witness={"LJ": repr(c[0]), "LJp": repr(c[1]), "h": repr(c[2]), "u": repr(c[3]), "failures": f, "real_whole_run": msg},
+                  replay={"kind": "custom", "contract": "C15", "func": "replay_accept", "args": {"case": _case_key(c)}}, confirmed=(not ok))
+
+
+def ob_loop_classes():
+    c = _cut()
+    n = 0
+    for case in finite_cases():
+        r = concrete_iteration(c, *case)
+        f = r["fail"] + decision_failures(r, *case)
+        n += 1
+        if f:
+            _raise_case(case, f, "accept rule / protocol on the verbatim loop body")
+    out = _cut_info(c)
+    out.update(backend="native execution of the verbatim body on a complete split of value classes", cases=n,
+               statement="d=LJ'-LJ+h in {<0, =0, >0, underflow, overflow} x u in {0, tiny, just below / equal / just above exp(min(0,d)), ~1} x "
+                         "split of d between density and Hastings term x LJ in {finite, -inf}: accepted, tune argument and all protocol "
+                         "postconditions equal the statement's")
+    return out
+
+
+NONFINITE_GROUPS = {
+    "h=+inf": lambda LJ, LJp, h, u: h == INF and math.isfinite(LJp),
+    "h=-inf": lambda LJ, LJp, h, u: h == -INF and math.isfinite(LJp),
+    "h=nan": lambda LJ, LJp, h, u: h != h and math.isfinite(LJp),
+    "LJ'=nan": lambda LJ, LJp, h, u: LJp != LJp and math.isfinite(h),
+    "LJ'=-inf": lambda LJ, LJp, h, u: LJp == -INF and math.isfinite(h),
+    "LJ'=+inf": lambda LJ, LJp, h, u: LJp == INF and math.isfinite(h),
+    "both": lambda LJ, LJp, h, u: not math.isfinite(h) and not math.isfinite(LJp),
+}
+
+
+def ob_loop_nonfinite(group):
+    def fn():
+        c = _cut()
+        n = 0
+        for case in nonfinite_cases():
+            if not NONFINITE_GROUPS[group](*case):
+                continue
+            r = concrete_iteration(c, *case)
+            f = r["fail"] + decision_failures(r, *case)
+            n += 1
+            if f:
+                _raise_case(case, f, "non-finite value in the accept test")
+        if n == 0:
+            raise Undecided("no case in group %s" % group)
+        return {"backend": "native execution of the verbatim body", "cases": n,
+                "statement": "%s: the move is rejected, reject() once, log_joint unchanged, state restored, tune receives 0" % group}
+    return fn
+
+
+def ob_loop_protocol_variants():
+    """the protocol postconditions for 1..3 operators (every selected index), 0..2 loggers, on-screen logging on/off, an
+    operator with `_integrator`, checkpointing on"""
+    c = _cut()
+    n = 0
+    base = [(-3.25, -2.0, 0.5, 0.3), (-3.25, -9.0, 0.5, 0.9), (-3.25, -3.25, 0.0, 0.999), (-3.25, -4.0, INF, 0.1), (-3.25, NAN, 0.0, 0.1)]
+    for n_ops in (1, 2, 3):
+        for index in range(n_ops):
+            for n_log in (0, 1, 2):
+                for every, integ, ck, epoch in ((0, False, None, 7), (1, True, None, 7), (7, False, "ck.json", 14), (5, True, "ck.json", 1000)):
+                    for case in base:
+                        r = concrete_iteration(c, *case, n_ops=n_ops, index=index, n_loggers=n_log, every=every, integrator=integ,
+                                               checkpoint=ck, freq=7, epoch=epoch)
+                        f = r["fail"] + decision_failures(r, *case)
+                        if every and epoch % every == 0 and not r["printed"]:
+                            f.append("on-screen line missing")
+                        if ck and epoch % 7 == 0 and len(r["saves"]) != 1:
+                            f.append("checkpoint not written after iteration %d" % epoch)
+                        n += 1
+                        if f:
+                            raise Refuted("protocol (ops=%d index=%d loggers=%d every=%d integrator=%s checkpoint=%s): %s"
+                                          % (n_ops, index, n_log, every, integ, ck, "; ".join(f)),
+                                          witness={"case": _case_key(case), "failures": f},
+                                          replay={"kind": "custom", "contract": "C15", "func": "replay_loop_grid", "args": {}}, confirmed=_confirm_on_grid()[0])
+    return {"backend": "native execution of the verbatim body over configuration variants", "cases": n,
+            "statement": "only the selected operator is touched; step first; joint evaluated at the proposed state before the decision; exactly one of "
+                         "accept()/reject(); loggers after the decision see the post-decision state and its density; tune once; _epoch + 1"}
+
+
+def ob_loop_prefix():
+    """the text before the loop establishes the invariant: log_joint = pi(initial state) (evaluated then, not cached from
+    elsewhere), accept = 0, _epoch untouched; loggers initialised and called with sample 0 on the initial state"""
+    import signal
+    c = _cut()
+    mm, w, ops, mcmc, saves = _build(c, _t(-1.5), _t(-2.5), [_t(0.0), _t(0.0)], torch.tensor([0.5]), 0, epoch=1)
+    old = signal.getsignal(signal.SIGINT)
+    try:
+        with contextlib.redirect_stdout(io.StringIO()):
+            loc = c.prefix(mcmc)
+    finally:
+        signal.signal(signal.SIGINT, old)
+    f = []
+    if not _same(loc.get("log_joint"), w.pi["S0"]):
+        f.append("log_joint before the loop is not the joint at the initial state")
+    if ("joint", "S0") not in w.events:
+        f.append("the joint is not evaluated before the loop")
+    if loc.get("accept") != 0 or mcmc._epoch != 1:
+        f.append("accept=%r _epoch=%r before the first iteration" % (loc.get("accept"), mcmc._epoch))
+    if any(e[0] in ("step", "accept", "reject", "tune") for e in w.events):
+        f.append("an operator is used before the loop")
+    if getattr(loc.get("handler"), "stop", None) is not False:
+        f.append("handler.stop is not False before the loop")
+    if f:
+        raise Refuted("prefix of MCMC.run: " + "; ".join(f), witness={"events": [e[:3] for e in w.events]}, replay=None, confirmed=None)
+    out = _cut_info(c)
+    out.update(backend="native execution of the verbatim prefix", cases=1, statement="Inv(0): log_joint = pi(state_0), accept = 0, _epoch = start; "
+               "with C15.loop.* (Inv(k) and not stop => Inv(k+1)) this is the induction for every iteration of every run")
+    return out
+
+
+# ---- must-fail twins of the loop body --------------------------------------------------------------
+class _GtToLt(ast.NodeTransformer):
+    hits = 0
+
+    def visit_Compare(self, node):
+        self.generic_visit(node)
+        if any(isinstance(n, ast.Attribute) and n.attr == "rand" for c in node.comparators + [node.left] for n in ast.walk(c)):
+            node.ops = [ast.Lt() if isinstance(o, ast.Gt) else (ast.Gt() if isinstance(o, ast.Lt) else o) for o in node.ops]
+            self.hits += 1
+        return node
+
+
+class _NoReject(ast.NodeTransformer):
+    hits = 0
+
+    def visit_Expr(self, node):
+        v = node.value
+        if isinstance(v, ast.Call) and isinstance(v.func, ast.Attribute) and v.func.attr == "reject":
+            self.hits += 1
+            return ast.copy_location(ast.Pass(), node)
+        return node
+
+
+class _DropHastings(ast.NodeTransformer):
+    hits = 0
+
+    def visit_BinOp(self, node):
+        self.generic_visit(node)
+        if isinstance(node.op, ast.Add) and isinstance(node.right, ast.Name) and node.right.id == "hastings_ratio":
+            self.hits += 1
+            return node.left
+        return node
+
+
+class _LogBeforeDecision(ast.NodeTransformer):
+    hits = 0
+
+    def visit_While(self, node):
+        body = node.body
+        i_if = next((i for i, s in enumerate(body) if isinstance(s, ast.If) and isinstance(s.test, ast.Name) and s.test.id == "accepted"), None)
+        i_for = next((i for i, s in enumerate(body) if isinstance(s, ast.For) and "loggers" in ast.unparse(s.iter)), None)
+        if i_if is not None and i_for is not None and i_for > i_if:
+            st = body.pop(i_for)
+            body.insert(i_if, st)
+            self.hits += 1
+        return node
+
+
+class _JointBeforeStep(ast.NodeTransformer):
+    """the proposal's density taken before operator.step(): `log_joint_proposed = self.joint()` becomes `= log_joint`"""
+    hits = 0
+
+    def visit_Assign(self, node):
+        if len(node.targets) == 1 and isinstance(node.targets[0], ast.Name) and node.targets[0].id == "log_joint_proposed":
+            self.hits += 1
+            node.value = ast.Name(id="log_joint", ctx=ast.Load())
+        return node
+
+
+TWINS = {"gt_to_lt": (_GtToLt, "symbolic"), "drop_hastings": (_DropHastings, "symbolic"), "no_reject": (_NoReject, "protocol"),
+         "log_before_decision": (_LogBeforeDecision, "protocol"), "stale_density": (_JointBeforeStep, "protocol")}
+
+
+def ob_vacuity_loop(name):
+    def fn():
+        mm = _mm()
+        tr, mode = TWINS[name]
+        g = loopcut15.twin(mm.MCMC.run, tr(), name)
+        c = loopcut15.cut_only_while(g)
+        try:
+            if mode == "symbolic":
+                symbolic_accept_rule(c, 1, 0)
+            else:
+                for case in [(-3.25, -2.0, 0.5, 0.3), (-3.25, -9.0, 0.5, 0.9)]:
+                    r = concrete_iteration(c, *case)
+                    f = r["fail"] + decision_failures(r, *case)
+                    if f:
+                        raise Refuted("; ".join(f))
+        except Refuted as e:
+            return {"backend": "must-fail twin", "cases": 1, "statement": "twin '%s' of the loop body is refuted: %s" % (name, e.detail[:300])}
+        raise Undecided("vacuity guard: the must-fail twin '%s' of the loop body was NOT refuted" % name)
+    return fn
+
+
+def ob_must_fail(inner, what):
+    def fn():
+        try:
+            inner()
+        except Refuted as e:
+            return {"backend": "must-fail twin", "cases": 1, "statement": "%s is refuted: %s" % (what, e.detail[:300])}
+        raise Undecided("vacuity guard: %s was NOT refuted" % what)
+    return fn
+
+
+def _flip_scaler(op):
+    """must-fail twin for C15.tune: a scaler whose re-parameterisation is reversed (higher acceptance -> narrower window)"""
+    import types as _types
+
+    def set_adaptable_parameter(self, value):
+        self._scaler = 1.0 / (_om().math.exp(-value) + 1.0)
+    op.set_adaptable_parameter = _types.MethodType(set_adaptable_parameter, op)
+
+
+def ob_tune_direction(name, side, count=None, twin=None):
+    def fn():
+        st = prove_tune_direction(name, side, twin=twin, count=count)
+        return st
+    return fn
+
+
+def ob_tune_grid(name, side):
+    def fn():
+        bad, w = tune_grid(name, side)
+        if bad:
+            ok, msg = replay_tune(w)
+            raise Refuted(msg, witness=w, replay={"kind": "custom", "contract": "C15", "func": "replay_tune", "args": w}, confirmed=not ok)
+        return {"backend": "grid of concrete values on the real class (real math)", "cases": TUNE_GRID_COUNT[0],
+                "statement": "acceptance %s target never moves the boldness the wrong way on the grid" % side}
+    return fn
+
+
+def ob_tune_disabled():
+    n = 0
+    for name in ("ScalerOperator", "SlidingWindowOperator", "DirichletOperator", "GMRFPiecewiseCoalescentBlockUpdatingOperator", "HMCOperator"):
+        for value in GRID[name]:
+            T = _tunables()[name]
+            obj = T["make"](value, 0.234, 5)
+            obj._disable_adaptation = True
+            for p in (0.0, 0.5, 1.0):
+                T["call"](obj, torch.tensor(p))
+                n += 1
+                if float(T["get"](obj)) != float(value) or obj._adapt_count != 5:
+                    raise Refuted("%s: adaptation is disabled but tune changed the tuning parameter %r -> %r" % (name, value, float(T["get"](obj))),
+                                  witness={"class": name, "value": value, "p": p}, replay=None, confirmed=True)
+    return {"backend": "native execution on the real classes", "cases": n, "statement": "disable_adaptation: tune leaves the tuning parameter and the adaptation count unchanged"}
+
+
+def ob_restore_base():
+    return restore_base()
+
+
+def ob_restore_real(kind, reps, seed):
+    return lambda: restore_real(kind, reps, seed)
+
+
+def ob_whole_run(kinds, adapt, iters, seed, every=0):
+    def fn():
+        st = whole_run(kinds, adapt, iters, seed, every)
+        st.update(backend="whole real MCMC.run, externally instrumented (bounded)", cases=iters,
+                  statement="every iteration: proposal density = target from scratch; decision = statement's rule on the recorded (LJ, LJ', h, u); "
+                            "rejected moves restore bit-identically; logged rows (recording logger and real ContainerLogger) are (target, parameters) of "
+                            "the post-decision state; tune once with the acceptance probability")
+        return st
+    return fn
+
+
+META = {
+    "level": "other",
+    "explanation": (
+        "Transition loop: the body of the while-loop of the real MCMC.run is cut from its current source and executed verbatim. For finite values "
+        "the accept rule is proved for ALL real LJ, LJ', h and u in [0,1) (symbolic scalars, every path of the body, z3 with exp as an "
+        "uninterpreted positive strictly monotone function + the homomorphism instance for LJ'-LJ+h); the IEEE corner values (+-inf, nan, "
+        "underflow/overflow of exp, u equal to the acceptance probability) are covered by a complete case split executed on the same body; the "
+        "protocol clauses (which density, accept/reject exactly once, log_joint update, loggers after the decision, tune, invariant) are checked on "
+        "every symbolic path and every concrete case with recording contract proxies; the prefix establishes the invariant, so the clauses hold at "
+        "every iteration of every run for every operator satisfying the operator contract. The operator contract is discharged per class: restore "
+        "(real step/reject around an adversarial _step + every real operator, copy-only argument: step/reject never branch on values), Hastings "
+        "ratio (scenario harness, all values, shapes enumerated) for Scaler / SlidingWindow / Dirichlet. Tuning direction: the real tune/learn is "
+        "executed on symbolic values and the direction proved with z3 for all tuning values, acceptance probabilities, targets and adaptation counts. "
+        "level is 'other' because: (i) the Hastings ratio of GMRFPiecewiseCoalescentBlockUpdatingOperator (Newton iterations + Cholesky) is NOT "
+        "decided (only its restore, its +-inf paths and its tuning direction are), (ii) the HMC Hastings term is C16's subject, (iii) Hastings "
+        "obligations enumerate parameter-list lengths and dimensions (V), (iv) cache coherence of the joint on the shipped tree/likelihood models "
+        "is C11's subject - here it is checked on real Parameter/Distribution/JointDistributionModel/coalescent/GMRF objects, (v) whole runs are bounded (B)."),
+    "bound": "Hastings: 1..2 parameters x 1..3 coordinates (quick) / 1..3 x 1..4 (thorough), every (parameter, coordinate) choice, both signs; Dirichlet K=2..4 (5 thorough); "
+             "AdaptiveStepSize counters {0,1,8,9,10,10^6}; dual averaging counters {0,1,2,10,100}; whole runs 300 (quick) / 3000 (thorough) iterations; "
+             "loop, restore base, tuning direction: unbounded in values and iterations",
+    "exhaustive": False,
+    "trusted_base": [
+        "CPython 3.12 executes the verbatim loop body / the real methods (Python semantics used, not modelled); vt.loopcut drops only the loop header `while self._epoch <= self.iterations` and rewrites `break` into a tagged return",
+        "z3 (QF_UFNRA); axioms of exp instantiated on the occurring terms: positivity, EXP(0)=1, strict monotonicity, EXP(a+b)=EXP(a)EXP(b); vt.nf rewrite rules exp(a+b)=exp a exp b, exp(log a)=a [a>0], log(ab)=log a+log b [a,b>0]",
+        "stub in torchtree.inference.mcmc.mcmc: torch.rand(1) returns the chosen u in [0,1) (contract of torch.rand)",
+        "stub in torchtree.inference.mcmc.mcmc: torch.distributions.Categorical(w).sample().item() returns the chosen index (any index; that the schedule follows the weights is not part of the property)",
+        "proxies in C15.loop: operator (step/accept/reject/tune recorded, step returns h and moves the ghost state to 'proposed', reject moves it back), joint (returns pi(current ghost state)), loggers (read the ghost state and the joint at log time), MCMC.save_full_state replaced on the instance by a recorder",
+        "stubs in torchtree.inference.mcmc.operator during C15.hastings: torch.rand(1).item() returns the symbolic draw u in [0,1); torch.randint(lo,hi,(1,)).item() returns the chosen index and records (lo,hi); torch.tensor accepts symbolic scalars; torch.distributions.Dirichlet is the real class with sample() returning the chosen draw",
+        "stubs during C15.tune: `math` of torchtree.inference.mcmc.operator / gmrf_block_updating / hmc.operator / hmc.adaptation / ops.dual_averaging replaced by a proxy whose log/exp/sqrt/pow map symbolic scalars to the interpreted symbols of vt.nf (real math otherwise)",
+        "stub in torchtree.inference.mcmc.gmrf_block_updating during C15.gmrf: torch.linalg.cholesky raises torch._C._LinAlgError on the chosen call",
+        "float64 exp as computed by torch is the meaning of exp in the concrete class split; real arithmetic in the symbolic obligations",
+        "torch.distributions.Dirichlet.log_prob (torch's code, executed symbolically) compared with the Dirichlet density written out in the sidecar",
+        "vt.symtorch handlers for the torch entry points listed in the evidence; guarded by the concretisation cross-check of the scenario harness",
+    ],
+    "assumptions": [
+        "SIDE DECISION against the literal statement: a Hastings value of +inf (and a proposed log density of +inf) must be REJECTED and restored, although min(1, exp(+inf)) = 1 would accept: +inf is only produced as a failure sentinel (GMRF block operator: Cholesky failure after the precision has already been changed; HMCOperator: 10 failed trials), never as a log ratio of densities of a state that was actually proposed",
+        "the chain starts at a state whose log density is not nan (then log_joint is never nan: accepted proposals have a finite density - checked)",
+        "the coordinate-wise operators (Scaler, SlidingWindow) act on 1-d parameter tensors (len(tensor) = number of coordinates), as in every configuration the CLI generates; on a [n,k] tensor ScalerOperator scales a whole row with one factor and still returns -log s (true ratio (k-2) log s): observed, outside the stated domain, not counted",
+        "machine arithmetic treated as real arithmetic in the symbolic obligations (the concrete split covers the IEEE corner cases of the accept test)",
+        "Hastings ratio of GMRFPiecewiseCoalescentBlockUpdatingOperator: NOT decided (torch.linalg.cholesky/solve and the Newton iteration have no contract); HMC Hastings term: see C16",
+        "MassMatrixAdaptor is not an acceptance-driven tuning rule; the tuning clause does not speak about it",
+        "HMCOperator.tune with adaptors ignores disable_adaptation (adaptors have their own start/end window): recorded, not an obligation",
+    ],
+}
+
+MANIFEST = {
+    "category": "other",
+    "text": "The while-loop body of the real MCMC.run is cut from source and executed verbatim on a generic pre-state with contract proxies: for all "
+            "real log densities, Hastings values and uniform draws z3 proves accepted <=> u < min(1, exp(change + Hastings)) on every path, a complete "
+            "split of IEEE corner values is executed on the same body, and the protocol clauses (density evaluated after the proposal, accept/reject "
+            "exactly once, log_joint update, restore before logging, self-consistent rows, tune with the acceptance probability, invariant + prefix) "
+            "are checked on every path. The operator contract is discharged on the real classes: restore bit-identically (adversarial in-place _step, "
+            "all five operator classes, listeners and caches), Hastings ratio of Scaler / SlidingWindow (derived by change of variables from the "
+            "operator's own random map) and Dirichlet (density written out) as identities over all values, tuning direction of every operator and "
+            "adaptor by running the real tune on symbolic values and z3 with exp monotone. Whole real runs re-derive every iteration (bounded).",
+    "note": "Not decided: Hastings ratio of the GMRF block operator (Newton + Cholesky), HMC Hastings term (C16). Hastings obligations enumerate "
+            "dimensions; whole-run and grid obligations are bounded stand-ins. +inf Hastings is treated as a failure sentinel (must reject) against the "
+            "literal formula - stated in the assumptions.",
+    "technique": "AST loop cut + symbolic execution with path forking + z3 (uninterpreted monotone exp) + recording proxies + scenario harness (exact normal form) + must-fail twins",
+}
+
+
+def obligations(tier, seed):
+    thorough = tier == "thorough"
+    F = FUNCS
+    obs = []
+    A = "accept rule: accepted iff u < min(1, exp(change in log density + log Hastings ratio))"
+    P = "per-iteration protocol: density evaluated at the proposed state, accept/reject, log_joint, loggers, tune, invariant"
+    obs.append(Ob("C15.loop.cut", "U", ob_loop_cut, clause=P, funcs=F, timeout=120))
+    obs.append(Ob("C15.loop.prefix", "U", ob_loop_prefix, clause=P, funcs=F, timeout=120))
+    obs.append(Ob("C15.loop.accept_rule.symbolic[ops=1]", "U", ob_loop_symbolic(1, 0), clause=A, funcs=F, timeout=300))
+    obs.append(Ob("C15.loop.accept_rule.symbolic[ops=3,index=1]", "U", ob_loop_symbolic(3, 1), clause=A, funcs=F, timeout=300))
+    obs.append(Ob("C15.loop.accept_rule.classes", "U", ob_loop_classes, clause=A, funcs=F, timeout=300))
+    for g in NONFINITE_GROUPS:
+        obs.append(Ob("C15.loop.nonfinite[%s]" % g, "U", ob_loop_nonfinite(g), clause="non-finite density or Hastings value is rejected", funcs=F, timeout=120))
+    obs.append(Ob("C15.loop.protocol.variants", "U", ob_loop_protocol_variants, clause=P, funcs=F, timeout=300))
+    # restore
+    R = "a rejected move leaves every parameter bit-identical"
+    obs.append(Ob("C15.restore.base", "U", ob_restore_base, clause=R, funcs=F, timeout=300))
+    reps = 200 if thorough else 25
+    for k in REAL_KINDS:
+        obs.append(Ob("C15.restore.real[%s]" % k, "U", ob_restore_real(k, reps, seed), clause=R, funcs=F, timeout=600))
+    obs.append(Ob("C15.restore.real[HMCOperator,all-trials-fail]", "U", hmc_failure_path, clause=R, funcs=F, timeout=120))
+    for k in (1, 2):
+        obs.append(Ob("C15.gmrf.inf_path[cholesky#%d]" % k, "U", (lambda k=k: gmrf_inf_path(k)), clause="failure sentinel +inf is rejected and restored", funcs=F, timeout=120))
+    # logged rows / whole runs
+    L = "every logged row is self-consistent"
+    iters = 3000 if thorough else 300
+    runs = [(REAL_KINDS, True, 0), (REAL_KINDS, False, 0), (["ScalerOperator", "SlidingWindowOperator"], True, 7),
+            (["DirichletOperator"], True, 0), (["GMRFPiecewiseCoalescentBlockUpdatingOperator"], True, 0), (["HMCOperator"], True, 1)]
+    for kinds, adapt, ev in runs:
+        label = "mixture" if len(kinds) == len(REAL_KINDS) else "+".join(k.replace("Operator", "").replace("PiecewiseCoalescentBlockUpdating", "") for k in kinds)
+        obs.append(Ob("C15.log.whole_run[%s,adapt=%s]" % (label, "on" if adapt else "off"), "B", ob_whole_run(kinds, adapt, iters, seed + 1, ev),
+                      clause=L, funcs=F, timeout=1200))
+    # hastings
+    H = "Hastings ratio = log q(x|x') - log q(x'|x)"
+    npar = (1, 2, 3) if thorough else (1, 2)
+    dims = (1, 2, 3, 4) if thorough else (1, 2, 3)
+    for kind in ("scaler", "sliding"):
+        for n_params in npar:
+            for dim in dims:
+                for index in range(n_params):
+                    for index2 in range(dim):
+                        if not thorough and n_params == 2 and dim == 3 and (index, index2) not in ((0, 0), (1, 2)):
+                            continue
+                        for sign in ((1, -1) if kind == "scaler" else (1,)):
+                            name = "C15.hastings.%s[params=%d,dim=%d,pick=(%d,%d)%s]" % (kind, n_params, dim, index, index2, ",negative" if sign < 0 else "")
+                            obs.append(scenario_ob("C15", name, "V", "scn_hastings_1d", (kind, n_params, dim, index, index2, sign), clause=H, funcs=F, seed=seed))
+    for K in ((2, 3, 4, 5) if thorough else (2, 3, 4)):
+        obs.append(scenario_ob("C15", "C15.hastings.dirichlet[K=%d]" % K, "V", "scn_hastings_dirichlet", (K,), clause=H, funcs=F, seed=seed, timeout=900))
+    # tune
+    T = "tuning moves the proposal scale toward the target acceptance"
+    for name in GRID:
+        counts = (0, 1, 8, 9, 10, 10 ** 6) if name == "AdaptiveStepSize" else (None,)
+        for side in ("above", "below"):
+            for cnt in counts:
+                suffix = "" if cnt is None else ",count=%d" % cnt
+                obs.append(Ob("C15.tune.direction[%s,%s%s].z3" % (name, side, suffix), "U", ob_tune_direction(name, side, cnt), clause=T, funcs=F, timeout=300))
+            obs.append(Ob("C15.tune.direction[%s,%s].grid" % (name, side), "B", ob_tune_grid(name, side), clause=T, funcs=F, timeout=300))
+        if name != "AdaptiveStepSize":
+            obs.append(Ob("C15.tune.identity[%s]" % name, "U", (lambda name=name: prove_tune_identity(name)),
+                          clause="set_adaptable_parameter(adaptable_parameter) is the identity", funcs=F, timeout=120))
+    for side in ("above", "below"):
+        obs.append(Ob("C15.tune.direction[DualAveragingStepSize,%s].z3" % side, "U", (lambda side=side: prove_dual_direction(side)), clause=T, funcs=F, timeout=300))
+    obs.append(Ob("C15.tune.monotone_in_acceptance[DualAveragingStepSize]", "U", prove_dual_monotone, clause=T, funcs=F, timeout=300))
+    obs.append(Ob("C15.tune.disabled", "U", ob_tune_disabled, clause="adaptation off: tune changes nothing", funcs=F, timeout=120))
+    # vacuity
+    for name in TWINS:
+        obs.append(Ob("C15.vacuity.loop.%s" % name, "U", ob_vacuity_loop(name), clause="vacuity", funcs=F, timeout=300))
+    obs.append(Ob("C15.vacuity.restore.reference_instead_of_clone", "U", ob_must_fail(lambda: restore_base("reference"), "an operator saving references instead of clones"),
+                  clause="vacuity", funcs=F, timeout=120))
+    obs.append(Ob("C15.vacuity.restore.no_setter", "U", ob_must_fail(lambda: restore_base("no_setter"), "a reject() that bypasses the setter (listeners not notified)"),
+                  clause="vacuity", funcs=F, timeout=120))
+    from vt.scenario import prove_scenario
+    obs.append(Ob("C15.vacuity.hastings.sign", "V", ob_must_fail(lambda: prove_scenario(scn_hastings_1d("scaler~signflip", 1, 2, 0, 1, 1), seed=seed),
+                                                                "a scaler returning +log s"), clause="vacuity", funcs=F, timeout=300))
+    obs.append(Ob("C15.vacuity.hastings.dirichlet_sign", "V", ob_must_fail(lambda: prove_scenario(scn_hastings_dirichlet(3, "dirichlet~signflip"), seed=seed),
+                                                                          "a Dirichlet operator returning forward - backward"), clause="vacuity", funcs=F, timeout=300))
+    obs.append(Ob("C15.vacuity.tune.flipped_scaler", "U", ob_must_fail(lambda: prove_tune_direction("ScalerOperator", "above", twin=_flip_scaler),
+                                                                     "a scaler whose re-parameterisation is reversed"), clause="vacuity", funcs=F, timeout=300))
+    return obs
